@@ -21,15 +21,15 @@ impl FixtureDatabase {
         // Cache for resolved definitions
         let mut resolution_cache: HashMap<(PathBuf, String), Option<PathBuf>> = HashMap::new();
 
-        // Pre-compute fixture definition lines per file
-        let mut fixture_def_lines: HashMap<PathBuf, HashMap<usize, FixtureDefinition>> =
-            HashMap::new();
+        // Pre-compute the line range of every fixture function per file (a wrapped
+        // signature puts the parameters on the lines after the `def` line)
+        let mut fixture_def_lines: HashMap<PathBuf, Vec<FixtureDefinition>> = HashMap::new();
         for entry in self.definitions.iter() {
             for def in entry.value().iter() {
                 fixture_def_lines
                     .entry(def.file_path.clone())
                     .or_default()
-                    .insert(def.line, def.clone());
+                    .push(def.clone());
             }
         }
 
@@ -41,7 +41,10 @@ impl FixtureDatabase {
 
             for usage in usages.iter() {
                 let fixture_def_at_line = file_def_lines
-                    .and_then(|lines| lines.get(&usage.line))
+                    .and_then(|defs| {
+                        defs.iter()
+                            .find(|def| def.line <= usage.line && usage.line <= def.end_line)
+                    })
                     .cloned();
 
                 let is_self_referencing = fixture_def_at_line
